@@ -224,6 +224,7 @@ func newStoredResponse(ctx context.Context, r *types.Response) (*storedResponse,
 	sr := &storedResponse{
 		BackendID:    r.BackendID,
 		RequestID:    r.RequestID,
+		StartTime:    r.StartTime,
 		Latency:      time.Since(r.StartTime),
 		ResponseSize: len(r.Contents),
 	}
